@@ -2223,7 +2223,9 @@ def validate_meta(
             if stat.S_ISDIR(st.st_mode):
                 source_hash = ""
             else:
-                source_hash = manager.fscache.hash_digest(path)
+                # Hash the file whose stat was compared above (get_stat() follows --shadow-file).
+                hashed_path = manager.maybe_swap_for_shadow_path(path)
+                source_hash = manager.fscache.hash_digest(hashed_path)
         except (OSError, UnicodeDecodeError, DecodeError):
             return None
         manager.add_stats(validate_hash_time=time.time() - t0)
